@@ -660,11 +660,13 @@ def head_tail(t):
     if k == "lst":
         if not t[1]:
             return head_tail(t[2])
-        rest = ("lst", t[1][1:], t[2], t[3]) if len(t[1]) > 1 else t[2]
         mode = t[3]
         if mode == "lit":
-            h = t[1][0]
-            mode = "pstr" if (h[0] == "atom" and len(h[1]) == 1) else "lis"
+            # the reader builds a list literal as a partial string iff ALL its elements are
+            # one-char atoms (whatever the tail), otherwise as Lis cells all the way
+            allchars = all(e[0] == "atom" and len(e[1]) == 1 for e in t[1])
+            mode = "pstr" if allchars else "lis"
+        rest = ("lst", t[1][1:], t[2], mode) if len(t[1]) > 1 else t[2]
         return t[1][0], rest, mode
     if k == "chs":
         if not t[1]:
@@ -706,6 +708,79 @@ def repr_pairs(a, b, acc):
             for x, y in zip(a[2], b[2]):
                 work.append((x, y))
     return acc
+
+
+def _num_key(t):
+    from fractions import Fraction
+    return Fraction(t[1]) if t[0] == "int" else Fraction(t[1], t[2])
+
+
+def py_compare(a, b, rank, quirk):
+    """reference comparator used ONLY to classify a violation for its signature (the oracle is the
+    Lean model): the standard order on abstract terms; with quirk=True the pinned behaviour of
+    finding C13-1 is simulated (a '.'/2 structure cell on the left against a Lis cell on the right
+    compares the tails before the heads). Returns -1/0/1."""
+    work = [(a, b)]
+    while work:
+        a, b = work.pop()
+        while a[0] == "share":
+            a = a[2]
+        while b[0] == "share":
+            b = b[2]
+        ha, hb = head_tail(a), head_tail(b)
+        if ha is None and a[0] in ("lst", "chs", "seg"):
+            a = a[2]
+            work.append((a, b))
+            continue
+        if hb is None and b[0] in ("lst", "chs", "seg"):
+            b = b[2]
+            work.append((a, b))
+            continue
+        ca = 4 if (ha or a[0] == "cmp") else {"var": 0, "flt": 1, "int": 2, "rat": 2, "atom": 3}[a[0]]
+        cb = 4 if (hb or b[0] == "cmp") else {"var": 0, "flt": 1, "int": 2, "rat": 2, "atom": 3}[b[0]]
+        if ca != cb:
+            return -1 if ca < cb else 1
+        if ca == 0:
+            x, y = rank[a[1]], rank[b[1]]
+        elif ca == 1:
+            x, y = b2f(a[1]), b2f(b[1])
+        elif ca == 2:
+            x, y = _num_key(a), _num_key(b)
+        elif ca == 3:
+            x, y = a[1], b[1]          # Python compares str by code points
+        else:
+            na, aa = (".", [ha[0], ha[1]]) if ha else (a[1], a[2])
+            nb, ab = (".", [hb[0], hb[1]]) if hb else (b[1], b[2])
+            if (len(aa), na) != (len(ab), nb):
+                return -1 if (len(aa), na) < (len(ab), nb) else 1
+            prs = list(zip(aa, ab))
+            if quirk and ha and hb and ha[2] == "dot" and hb[2] == "lis":
+                prs.reverse()
+            for pr in reversed(prs):
+                work.append(pr)
+            continue
+        if x != y:
+            return -1 if x < y else 1
+    return 0
+
+
+def py_ord(a, b, rank, quirk):
+    return {-1: "lt", 0: "eq", 1: "gt"}[py_compare(a, b, rank, quirk)]
+
+
+def quirk_ord(c, i, j):
+    """the answer the simulation of finding C13-1 predicts for compare(Ti, Tj); None where the
+    simulation does not apply (tabu family: terms too long, never contain '.'/2 structures)."""
+    if c.get("family") == "tabu" or c.get("rank") is None:
+        return None
+    try:
+        return py_ord(c["terms"][i], c["terms"][j], c["rank"], True)
+    except Exception:
+        return None
+
+
+def model_ord_py(c, i, j):
+    return py_ord(c["terms"][i], c["terms"][j], c["rank"], False)
 
 
 def case_pairs(c, a, b, acc):
@@ -1200,17 +1275,16 @@ def run(ctx):
                     kinds_hit[kk] = kinds_hit.get(kk, 0) + 1
                     if rep is not None:
                         print("  (%d,%d) impl=%s %s %s  model=%s %s" % (i, j, io, ix, ic, mo, mf))
-                    sp = set()
-                    case_pairs(c, c["terms"][i], c["terms"][j], sp)
-                    sp2 = set(sp)
-                    case_pairs(c, c["terms"][j], c["terms"][i], sp2)
+                    # signature: a known defect's shape is used only when that defect's own
+                    # simulation predicts the implementation's answer for this very pair
                     base = {"family": fam}
-                    if fam == "tabu":
+                    q1 = quirk_ord(c, i, j)
+                    if fam == "tabu" and io == "eq":
                         base["shape"] = "string-byte-offset-meets-list-cell-index"
-                    elif "dot/lis" in sp:
-                        base["shape"] = "strdot-left-vs-lis-right"
                     elif f2:
                         base["shape"] = "misaligned-left-pstr-ends-first"
+                    elif q1 is not None and q1 == io and q1 != mo:
+                        base["shape"] = "strdot-left-vs-lis-right"
                     else:
                         base["t1"], base["t2"] = ttexts[i], ttexts[j]
                     if io != mo:
@@ -1224,7 +1298,11 @@ def run(ctx):
                     want = flags_for(io)
                     if ix != want or ic != want:
                         ok = False
-                        sig = dict(base, defect="operators-inconsistent-with-compare")
+                        sig = {"family": fam, "defect": "operators-inconsistent-with-compare",
+                               "t1": ttexts[i], "t2": ttexts[j]}
+                        if f2:
+                            sig = {"family": fam, "defect": "operators-inconsistent-with-compare",
+                                   "shape": "misaligned-left-pstr-ends-first"}
                         findings.append(finding("violation", sig,
                                                 "== \\== @< @=< @> @>= give %s (execute form) / %s (call form) but compare/3 says %s" % (ix, ic, io),
                                                 c, {"pair": [i, j]}))
@@ -1232,9 +1310,16 @@ def run(ctx):
                         findings.append(finding("disagreement", {"family": fam, "defect": "model-ops"}, "model flags", c))
                     if (j, i) in res and res[(j, i)][0] != swap(io):
                         ok = False
-                        sig = dict(base, defect="antisymmetry")
-                        if "dot/lis" in sp2 and "shape" not in sig:
-                            sig = {"family": fam, "defect": "antisymmetry", "shape": "strdot-left-vs-lis-right"}
+                        q2 = quirk_ord(c, j, i)
+                        sig = {"family": fam, "defect": "antisymmetry"}
+                        if fam == "tabu" and "eq" in (io, res[(j, i)][0]):
+                            sig["shape"] = "string-byte-offset-meets-list-cell-index"
+                        elif f2:
+                            sig["shape"] = "misaligned-left-pstr-ends-first"
+                        elif q1 is not None and q1 == io and q2 == res[(j, i)][0]:
+                            sig["shape"] = "strdot-left-vs-lis-right"
+                        else:
+                            sig["t1"], sig["t2"] = ttexts[i], ttexts[j]
                         findings.append(finding("violation", sig,
                                                 "compare(T%d,T%d)=%s but compare(T%d,T%d)=%s" % (i, j, io, j, i, res[(j, i)][0]),
                                                 c, {"pair": [i, j]}))
@@ -1253,15 +1338,13 @@ def run(ctx):
                               (bb == "eq" and cc != a) or (a == "gt" and bb == "gt" and cc != "gt")
                         if bad:
                             ok = False
-                            sp = set()
-                            for x in (i, j, l):
-                                for y in (i, j, l):
-                                    case_pairs(c, c["terms"][x], c["terms"][y], sp)
                             sig = {"family": fam, "defect": "transitivity"}
-                            if "dot/lis" in sp:
-                                sig["shape"] = "strdot-left-vs-lis-right"
+                            if fam == "tabu" and "eq" in (a, bb, cc):
+                                sig["shape"] = "string-byte-offset-meets-list-cell-index"
                             elif f2:
                                 sig["shape"] = "misaligned-left-pstr-ends-first"
+                            elif (quirk_ord(c, i, j), quirk_ord(c, j, l), quirk_ord(c, i, l)) == (a, bb, cc):
+                                sig["shape"] = "strdot-left-vs-lis-right"
                             else:
                                 sig["terms"] = " | ".join(ttexts[x] for x in (i, j, l))
                             findings.append(finding("violation", sig,
@@ -1282,12 +1365,11 @@ def run(ctx):
                 distinct.add(tuple(c["texts"]))
             if got != want:
                 ok = False
-                sp = set()
-                for x in c["terms"]:
-                    for y in c["terms"]:
-                        case_pairs(c, x, y, sp)
                 sig = {"family": fam, "defect": c["kind"] + "-order"}
-                if "dot/lis" in sp:
+                # explained by C13-1 iff its simulation makes the comparator inconsistent with
+                # the standard order on some pair of this very list
+                nn = len(c["terms"])
+                if any(quirk_ord(c, x, y) not in (None, model_ord_py(c, x, y)) for x in range(nn) for y in range(nn)):
                     sig["shape"] = "strdot-left-vs-lis-right"
                 else:
                     sig["terms"] = " | ".join(ttexts)
